@@ -45,12 +45,11 @@ ASSUMPTIONS = [
 TRUSTED = []
 ORACLE_LIMIT = {"quick": 100000, "thorough": 1000000}
 EXPLORED_ONLY = [
-    "ms_of_today(float): range 0..86399999 is a theorem for every double; that it is the millisecond of the "
-    "argument (up to the rounding of s * 1000 next to a millisecond boundary) is checked by the oracle only",
     "CPython's datetime.fromtimestamp / timedelta(seconds=float) / float division themselves: transcribed into "
     "Model/CdsFloat.v and Model/CdsSoftFloat.v and validated by bit-exact correspondence on every run; the theorems "
     "C14_unix_seconds_close / C14_datetime_exact are about that transcription",
-    "views cached by from_datetime (the datetime passed in and dt.timestamp()): correspondence + oracle only",
+    "the datetime object cached by from_datetime (as_datetime() returns the object passed in): correspondence + "
+    "oracle only",
     "naive datetimes passed to from_datetime: not generated (they depend on the local time zone database); aware "
     "datetimes in fixed-offset zones other than UTC are generated (op 416) and behave as the same instant in UTC",
 ]
